@@ -312,6 +312,7 @@ class Check:
             "translator_validation_points": sum(r["validated"] for r in results),
             "solver": {"name": "z3 " + S.z3.get_version_string(), "queries": int(st.get("queries", 0)), "unsat": int(st.get("unsat", 0)),
                        "sat": int(st.get("sat", 0)), "unknown": int(st.get("unknown", 0)), "closed_by_normal_form": int(st.get("trivial", 0)),
+                       "solver_only_route": {k[7:]: int(v) for k, v in st.items() if k.startswith("route2_")},
                        "solver_time_s": round(st.get("time", 0.0), 3)},
             "case_wall_s": {r["case"]: round(r["wall_s"], 2) for r in results},
             "known_findings_hit": sorted(known_hit),
